@@ -2,11 +2,16 @@
 
 package simrt
 
+import "unsafe"
+
 // RaceBuild reports whether the binary was built with the race detector.
 const RaceBuild = false
 
-func raceDisable() {}
-func raceEnable()  {}
+func raceDisable()                      {}
+func raceEnable()                       {}
+func raceAcquire(p unsafe.Pointer)      {}
+func raceRelease(p unsafe.Pointer)      {}
+func raceReleaseMerge(p unsafe.Pointer) {}
 
 // RaceErrors is the number of data races the detector has reported so far.
 func RaceErrors() int { return 0 }
